@@ -493,6 +493,12 @@ class Interp:
             return TupleV((IdxV(lid, lay if lay is not None else Unknown("enum"), start), e))
         if isinstance(it, tuple) and it and it[0] == "RANGE":
             return IdxV(lid, Dim(it[1]))
+        if isinstance(it, tuple) and it and it[0] == "PRODUCTGEN":
+            # product(A, B, ...): nested loops, the last factor innermost; every factor has its own loop
+            items = []
+            for k_, fac in enumerate(it[1]):
+                items.append(self.iter_elem(fac, lid if k_ == 0 else next(self.loop_ids), env, node))
+            return TupleV(tuple(items))
         if isinstance(it, tuple) and it and it[0] == "PRODUCT":
             # for row, col in product(range(R), range(C)): the nested row-major loops
             return TupleV((IdxV(lid, Dim(it[1])), IdxV(next(self.loop_ids), Dim(it[2]))))
@@ -1131,6 +1137,11 @@ class Interp:
             # itertools.product(range(R), range(C)): (row, col) pairs in row-major order
             if len(args) == 2 and all(isinstance(a, tuple) and a and a[0] == "RANGE" for a in args) and not kwargs:
                 return ("PRODUCT", args[0][1], args[1][1])
+            rep = kwargs.get("repeat")
+            if rep is not None and isinstance(rep, Const) and isinstance(rep.value, int) and 1 <= rep.value <= 3 and len(args) >= 1:
+                return ("PRODUCTGEN", tuple(args) * rep.value)
+            if len(args) >= 2 and not kwargs:
+                return ("PRODUCTGEN", tuple(args))
             return Unknown("product()")
         if name == "enumerate":
             start = 0
